@@ -81,6 +81,9 @@ type Case struct {
 	Preds []PredD `json:"preds"`
 	Log   LogD    `json:"log"`
 	Mut   MutD    `json:"mut"`
+	// FetchEvents cases: the definitions that are active together and the logs the node holds
+	Sets [][]PredD `json:"sets"`
+	Logs []LogD    `json:"logs"`
 }
 
 // Rnd are the seeded fillers (record R of TriggerMatchDomain).
@@ -139,6 +142,12 @@ func tok(t string, r Rnd) ([]byte, error) {
 		return wordOf([]byte{96}), nil
 	case "W33":
 		return wordOf([]byte{33}), nil
+	case "W65":
+		return wordOf([]byte{65}), nil
+	case "WTOP":
+		return cat([]byte{1}, make([]byte, 31)), nil
+	case "B32":
+		return cat([]byte{32}, make([]byte, 31)), nil
 	case "WMEGA":
 		return wordOf([]byte{16, 0, 0}), nil
 	case "WU64":
